@@ -134,6 +134,43 @@ def run_request(job):
                 declared, count_from = [out], out
             else:
                 count_from = "stdout"
+        elif cmd in ("stat", "phase", "realign"):
+            from props.realign_common import make_inputs, RN
+
+            rd = os.path.join(d, "ra")
+            rgaf, rgfa, rfa = make_inputs(rd, 3)
+            n = dict(n, all=3)
+            if r["gaf"] == "empty":
+                write_text(rgaf, "")
+            if cmd == "stat":
+                g = rgaf
+                if r["gz"] and r["gaf"] != "missing":
+                    g = rgaf + ".gz"
+                    write_text(g, read_text(rgaf), "bgzf", block=200)
+                if r["gaf"] == "missing":
+                    g = os.path.join(rd, "no_such_file.gaf")
+                argv = ["stat", g] + (["--cigar"] if r["cigar"] else [])
+                if r["out"]:
+                    argv += ["-o", out]
+                    declared = [out]
+            elif cmd == "phase":
+                tsv = os.path.join(rd, "h.tsv")
+                if r["tsv"] == "rows":
+                    write_text(tsv, f"{RN(1)}\tH1\t10\tchr1\n{RN(3)}\tnone\tnone\tchr1\n")
+                elif r["tsv"] == "empty":
+                    write_text(tsv, "")
+                argv = ["phase", rgaf, tsv]
+                if r["out"]:
+                    argv += ["-o", out]
+                    declared = [out]
+                count_from = out if r["out"] else "stdout"
+            else:
+                fa = rfa if r["fasta"] == "present" else os.path.join(rd, "no_such_reads.fa")
+                argv = ["realign", rgaf, rgfa, fa] + ([] if r["cores"] == "omitted" else ["-c", r["cores"]])
+                if r["out"]:
+                    argv += ["-o", out]
+                    declared = [out]
+                count_from = out if r["out"] else "stdout"
         before = snapshot(d)
         res = plain(argv)
         after = snapshot(d)
@@ -159,7 +196,7 @@ def run(ctx):
     ctx.rule = (
         "design: CliTable.tla gives the outcome class (ok / usage error / refused with a message / exception) of every combination of "
         "options of view (input format x graph x --format x --node x --region x index), sort, order_gfa, index and find_path; TLC enumerates "
-        "the 676 requests and checks that usage errors do not depend on the input files, and that the only exceptions are the three named "
+        "the ~750 requests and checks that usage errors do not depend on the input files, and that the only exceptions are the three named "
         "deviations E3 / E4 / E5 (expected counterexample); binding: every request is made against real files and TLC (Check_Cli) compares the "
         "exit class, the files that appeared (none for a usage error, the declared ones for success) and the number of records written; "
         "non-trivial = requests that are not plain successes"
